@@ -189,6 +189,8 @@ def check_case(case: dict) -> Outcome:
                 # a detection referenced more than once: the negation is looked up through the
                 # parent chain of the shared detection objects, which only remembers the last reference
                 sig = "C01:noteq:detection-referenced-twice"
+            elif cfg["not_eq"] and negk and not unsupported and "in(" in q:
+                sig = "C01:noteq:in-list"  # in-expressions have no negated variant
             elif cfg["not_eq"] and unsupported:
                 # region of the known not-equals findings: one signature per negated operand kind
                 sig = "C01:noteq:" + unsupported[0]
